@@ -599,3 +599,143 @@ def normalise(tree, rel: str) -> int:
             ast.fix_missing_locations(f)
             _renumber(f)
     return total
+
+
+# ---------------------------------------------------------------------------------------------------------------- N-alias
+class Frozen:
+    """Which fields of `self` keep their object for the whole life of the instance.  A field f of class C is frozen when, in C's
+    family (its ancestors and descendants, by class name), every `self.f = ..` sits in `__init__`, and no module that defines a
+    class of the family stores `.f` on any other receiver or uses setattr / delattr outside a constructor.  (Assumption, stated in
+    DESIGN: a field of an object is re-bound only by its own class family or by code in the modules that define the family.)"""
+
+    def __init__(self, trees_by_rel: dict):
+        self.bases, self.where = {}, {}
+        self.self_stores, self.other_stores, self.dynamic = {}, {}, set()     # class -> attrs ; rel -> attrs ; rels with dynamic setattr
+        self.init_stores = {}
+        for rel, t in trees_by_rel.items():
+            for c in ast.walk(t):
+                if isinstance(c, ast.ClassDef):
+                    self.bases.setdefault(c.name, set()).update(
+                        b.id if isinstance(b, ast.Name) else (b.attr if isinstance(b, ast.Attribute) else "?") for b in c.bases)
+                    self.where.setdefault(c.name, set()).add(rel)
+                    for m in c.body:
+                        if isinstance(m, (ast.FunctionDef, ast.AsyncFunctionDef)):
+                            self._scan(m, c.name, rel, m.name == "__init__")
+            for st in t.body:
+                if not isinstance(st, ast.ClassDef):
+                    self._scan(st, None, rel, False)
+
+    def _scan(self, node, cname, rel, in_init):
+        for n in ast.walk(node):
+            if isinstance(n, ast.Attribute) and isinstance(n.ctx, (ast.Store, ast.Del)):
+                on_self = isinstance(n.value, ast.Name) and n.value.id == "self" and cname is not None
+                if on_self and in_init:
+                    self.init_stores.setdefault(cname, set()).add(n.attr)
+                elif on_self:
+                    self.self_stores.setdefault(cname, set()).add(n.attr)
+                else:
+                    self.other_stores.setdefault(rel, set()).add(n.attr)
+            if isinstance(n, ast.Call) and isinstance(n.func, ast.Name) and n.func.id in ("setattr", "delattr") and len(n.args) >= 2:
+                if in_init and isinstance(n.args[0], ast.Name) and n.args[0].id == "self":
+                    continue
+                a = n.args[1]
+                if isinstance(a, ast.Constant) and isinstance(a.value, str):
+                    self.other_stores.setdefault(rel, set()).add(a.value)
+                else:
+                    self.dynamic.add(rel)
+
+    def family(self, cname) -> set:
+        fam, todo = set(), [cname]
+        while todo:
+            c = todo.pop()
+            if c in fam:
+                continue
+            fam.add(c)
+            todo += [b for b in self.bases.get(c, ()) if b in self.bases]
+            todo += [d for d, bs in self.bases.items() if c in bs]
+        return fam
+
+    def fields(self, cname) -> set:
+        fam = self.family(cname)
+        rels = set().union(*(self.where.get(c, set()) for c in fam)) if fam else set()
+        if rels & self.dynamic:
+            return set()
+        init = set().union(*(self.init_stores.get(c, set()) for c in fam))
+        bad = set().union(*(self.self_stores.get(c, set()) for c in fam)) | set().union(*(self.other_stores.get(r, set()) for r in rels))
+        return init - bad
+
+
+def _self_chain(e):
+    """['a', 'b'] for self.a.b; None for anything else"""
+    names = []
+    while isinstance(e, ast.Attribute):
+        names.append(e.attr)
+        e = e.value
+    if isinstance(e, ast.Name) and e.id == "self" and names:
+        return list(reversed(names))
+    return None
+
+
+def propagate_aliases(tree, frozen_of) -> int:
+    """`v = self.f[.g]` with f, g frozen fields and v bound exactly once in the function: every read of v is the read of the field
+    (in place).  Returns the number of aliases removed."""
+    n_done = 0
+    for qual, f, cname in _defs(tree):
+        if cname is None:
+            continue
+        frozen = frozen_of.fields(cname)
+        if not frozen:
+            continue
+        a = f.args
+        params = {x.arg for x in a.posonlyargs + a.args + a.kwonlyargs} | ({a.vararg.arg} if a.vararg else set()) | ({a.kwarg.arg} if a.kwarg else set())
+        binds = {}
+        for n in ast.walk(f):
+            if isinstance(n, ast.Name) and isinstance(n.ctx, (ast.Store, ast.Del)):
+                binds[n.id] = binds.get(n.id, 0) + 1
+            elif isinstance(n, (ast.FunctionDef, ast.AsyncFunctionDef, ast.Lambda)) and n is not f:
+                aa = n.args
+                for x in aa.posonlyargs + aa.args + aa.kwonlyargs:
+                    binds[x.arg] = binds.get(x.arg, 0) + 2
+            elif isinstance(n, (ast.Global, ast.Nonlocal)):
+                for nm in n.names:
+                    binds[nm] = binds.get(nm, 0) + 2
+            elif isinstance(n, ast.ExceptHandler) and n.name:
+                binds[n.name] = binds.get(n.name, 0) + 2
+            elif isinstance(n, ast.alias):
+                binds[(n.asname or n.name).split(".")[0]] = 2
+        cands = {}
+
+        def scan(stmts):
+            for st in stmts:
+                tg = val = None
+                if isinstance(st, ast.Assign) and len(st.targets) == 1:
+                    tg, val = st.targets[0], st.value
+                elif isinstance(st, ast.AnnAssign) and st.value is not None:
+                    tg, val = st.target, st.value
+                if isinstance(tg, ast.Name) and binds.get(tg.id) == 1 and tg.id not in params:
+                    ch = _self_chain(val)
+                    if ch is not None and all(c in frozen for c in ch):
+                        cands[tg.id] = (st, val)
+        scan(f.body)                 # top level of the function only: the definition precedes (dominates) every later use
+        if not cands:
+            continue
+        # every use must come after the definition
+        ok = {}
+        for v, (st, val) in cands.items():
+            uses = [n for n in ast.walk(f) if isinstance(n, ast.Name) and n.id == v and isinstance(n.ctx, ast.Load)]
+            if all((n.lineno, n.col_offset) > (st.lineno, st.col_offset) for n in uses):
+                ok[v] = (st, val)
+        if not ok:
+            continue
+
+        class _S(ast.NodeTransformer):
+            def visit_Name(self, n):
+                if isinstance(n.ctx, ast.Load) and n.id in ok:
+                    return ast.copy_location(copy.deepcopy(ok[n.id][1]), n)
+                return n
+        drop = {id(st) for (st, _v) in ok.values()}
+        f.body = [st for st in f.body if id(st) not in drop] or [ast.Pass(lineno=f.lineno, col_offset=0)]
+        _S().visit(f)
+        ast.fix_missing_locations(f)
+        n_done += len(ok)
+    return n_done
